@@ -13,9 +13,9 @@ import os.path
 import runpy
 import sys
 from pathlib import Path
-from typing import IO, TYPE_CHECKING, List, Optional, Tuple
+from typing import IO, TYPE_CHECKING, List, Optional, Set, Tuple
 
-from libcst import Module, parse_module
+from libcst import Module, SimpleStatementLine, parse_module
 from libcst.codemod import CodemodContext
 from libcst.codemod.visitors import (
     ApplyTypeAnnotationsVisitor,
@@ -149,17 +149,20 @@ class HandlerError(Exception):
 def get_newly_imported_items(
     stub_module: Module, source_module: Module
 ) -> List[ImportItem]:
-    context = CodemodContext()
-    gatherer = GatherImportsVisitor(context)
-    stub_module.visit(gatherer)
-    stub_imports = list(gatherer.symbol_mapping.values())
+    # Imports are added as module-level statements: an import the source has
+    # only inside a function or an `if` block is a different statement
+    stub_imports = _module_level_import_items(stub_module)
+    source_imports = _module_level_import_items(source_module)
+    return list(stub_imports.difference(source_imports))
 
-    context = CodemodContext()
-    gatherer = GatherImportsVisitor(context)
-    source_module.visit(gatherer)
-    source_imports = list(gatherer.symbol_mapping.values())
 
-    return list(set(stub_imports).difference(set(source_imports)))
+def _module_level_import_items(module: Module) -> Set[ImportItem]:
+    top_level = module.with_changes(
+        body=[s for s in module.body if isinstance(s, SimpleStatementLine)]
+    )
+    gatherer = GatherImportsVisitor(CodemodContext())
+    top_level.visit(gatherer)
+    return set(gatherer.symbol_mapping.values())
 
 
 def apply_stub_using_libcst(
